@@ -10,7 +10,10 @@ import (
 	"crypto/sha256"
 	"encoding/hex"
 	"fmt"
+	"github.com/pion/logging"
+	"github.com/pion/transport/v4/vnet"
 	"sync"
+	"sync/atomic"
 	"testing"
 	"time"
 )
@@ -28,6 +31,56 @@ type vlVec struct {
 	Sizes string  `json:"sizes"`
 	Count int     `json:"count"`
 	Side  string  `json:"side"`
+	Net   string  `json:"net"` // loopback | delay (in-process network, jitter reorders datagrams) | loss (it also drops some)
+}
+
+// vlNetPair connects two endpoints over an in-process network (pion/transport vnet): every datagram is
+// delayed by 1..6 ms (so datagrams overtake each other); with loss, every datagram sent once the pair is
+// up is dropped with probability 1/20.
+func vlNetPair(t *testing.T, lossy bool, seed int64) (*PeerConnection, *PeerConnection, func(), *atomic.Bool) {
+	t.Helper()
+	wan, err := vnet.NewRouter(&vnet.RouterConfig{
+		CIDR: "1.2.3.0/24", MinDelay: time.Millisecond, MaxJitter: 5 * time.Millisecond,
+		LoggerFactory: logging.NewDefaultLoggerFactory(),
+	})
+	if err != nil {
+		t.Fatal(err)
+	}
+	mk := func(ip string) *PeerConnection {
+		n, e := vnet.NewNet(&vnet.NetConfig{StaticIPs: []string{ip}})
+		if e != nil {
+			t.Fatal(e)
+		}
+		if e = wan.AddNet(n); e != nil {
+			t.Fatal(e)
+		}
+		se := SettingEngine{}
+		se.SetNet(n)
+		se.SetICETimeouts(5*time.Second, 10*time.Second, 200*time.Millisecond)
+		pc, e := NewAPI(WithSettingEngine(se)).NewPeerConnection(Configuration{})
+		if e != nil {
+			t.Fatal(e)
+		}
+		return pc
+	}
+	a, b := mk("1.2.3.4"), mk("1.2.3.5")
+	dropping := &atomic.Bool{}
+	if lossy {
+		var mu sync.Mutex
+		rng := vkRand(seed)
+		wan.AddChunkFilter(func(vnet.Chunk) bool {
+			if !dropping.Load() {
+				return true
+			}
+			mu.Lock()
+			defer mu.Unlock()
+			return rng.Intn(20) != 0
+		})
+	}
+	if err = wan.Start(); err != nil {
+		t.Fatal(err)
+	}
+	return a, b, func() { _ = wan.Stop() }, dropping
 }
 
 func vlHash(b []byte) string { h := sha256.Sum256(b); return hex.EncodeToString(h[:8]) }
@@ -46,8 +99,14 @@ func TestVerifDcDeliv(t *testing.T) {
 func vlRun(t *testing.T, tr *vkTrace, id int, v vlVec) { //nolint:cyclop
 	t.Helper()
 	tr.Reset(id)
-	a, b, err := newPair()
-	if err != nil {
+	var a, b *PeerConnection
+	var err error
+	dropping := &atomic.Bool{}
+	if v.Net == "delay" || v.Net == "loss" {
+		var stop func()
+		a, b, stop, dropping = vlNetPair(t, v.Net == "loss", int64(id))
+		defer stop()
+	} else if a, b, err = newPair(); err != nil {
 		t.Fatal(err)
 	}
 	defer closePairNow(t, a, b)
@@ -98,6 +157,7 @@ func vlRun(t *testing.T, tr *vkTrace, id int, v vlVec) { //nolint:cyclop
 	case <-time.After(10 * time.Second):
 		t.Fatal("pair did not connect")
 	}
+	dropping.Store(true) // the pair is up: from now on the lossy network loses datagrams
 	rng := vkRand(int64(id))
 	type chanT struct {
 		dc  *DataChannel
@@ -200,18 +260,39 @@ func vlRun(t *testing.T, tr *vkTrace, id int, v vlVec) { //nolint:cyclop
 		}(i)
 	}
 	wg.Wait()
-	// wait until the reliable ordered channels delivered everything (generous deadline)
-	end := time.Now().Add(20 * time.Second)
-	for time.Now().Before(end) {
-		done := true
+	// wait until the reliable channels delivered everything and every channel was announced. Over a slow or
+	// lossy network that takes as long as it takes: the wait ends when nothing more is missing, when nothing
+	// has arrived for 20 s (then something is lost), or after 3 minutes of steady progress (then the run says
+	// nothing about completeness)
+	begin, lastProgress, lastTotal := time.Now(), time.Now(), -1
+	complete, stalled := false, false
+	for {
+		done, total := true, 0
 		mu.Lock()
 		for i, c := range chans {
+			total += recvCount[c.dc.Label()]
 			if c.cfg.Rel == "reliable" && recvCount[c.dc.Label()] < sentCount[i] {
 				done = false
+			}
+			if !remoteSeen[c.dc.Label()] { // the announcement is reliable whatever the channel is: it arrives
+				done = false
+			} else {
+				total++
 			}
 		}
 		mu.Unlock()
 		if done {
+			complete = true
+			break
+		}
+		if total != lastTotal {
+			lastTotal, lastProgress = total, time.Now()
+		}
+		if time.Since(lastProgress) > 20*time.Second {
+			stalled = true
+			break
+		}
+		if time.Since(begin) > 3*time.Minute {
 			break
 		}
 		time.Sleep(time.Millisecond)
@@ -224,6 +305,7 @@ func vlRun(t *testing.T, tr *vkTrace, id int, v vlVec) { //nolint:cyclop
 		mu.Unlock()
 		tr.Emit(vkM{"ev": "end", "t": id, "ch": c.dc.Label(), "k": n, "len": sentCount[i], "hash": "", "str": seen,
 			"ordered": c.cfg.Ordered, "mr": -1, "ml": -1, "protocol": "", "reliable": c.cfg.Rel == "reliable",
-			"sig": fmt.Sprintf("end(%s,ordered=%v,sizes=%s)", c.cfg.Rel, c.cfg.Ordered, v.Sizes)})
+			"settled": complete || stalled,
+			"sig":     fmt.Sprintf("end(%s,ordered=%v,sizes=%s,net=%s)", c.cfg.Rel, c.cfg.Ordered, v.Sizes, v.Net)})
 	}
 }
